@@ -18,7 +18,7 @@ if str(HERE) not in sys.path:
 
 ID = "C17"
 LEAN_TARGETS = ["OdxVerif.Props.C17", "OdxVerif.Props.C17Sites"]
-DRIVERS = ["drv_codec"]
+DRIVERS = ["drv_codec", "drv_compu"]
 P = "OdxVerif.Codec."
 THEOREMS = [P + t for t in ["C17_same_result_encode", "C17_same_result_decode", "C17_catch_site", "C17_counterexamples", "C17_switch_immediate",
                             "sim_encode_all", "sim_decode_all", "C17_sites_accounted"]]
@@ -1455,6 +1455,36 @@ def run(ctx):
                 ctx.sample({"request": lines[0][:300], "model": replies[0][:120], "impl": meta[0][2][:120]})
     else:
         ctx.notes.append("drv_codec not available: correspondence skipped")
+    # (3) round 8: compu-method calls against the model of C07 (`drv_compu`, the strict-mode semantics): where the MODEL says that strict mode
+    #     reports a problem of the library's own classes (the value is outside the limits, has no inverse, ...), the implementation in strict
+    #     mode has to report an OdxError -- an exception of another class is not "a problem reported as an error in strict mode", and
+    #     non-strict mode has nothing to downgrade.  (A model error of class `foreign` -- wrongly typed arguments -- claims nothing.)
+    cdrv = ctx.driver("drv_compu")
+    if cdrv.available():
+        import compu_lib as CL
+        idx = [i for i, c in enumerate(cases) if c["op"] == "compu" and not results[(True, True)][i].startswith("build-error")]
+        try:
+            replies = cdrv.query([CL.request(cases[i]["desc"], [(cases[i]["dir"], cases[i]["v"])]) for i in idx])
+        except Exception as e:  # noqa
+            replies = []
+            ctx.notes.append(f"drv_compu failed: {e!r}"[:300])
+        for i, rep in zip(idx, replies):
+            try:
+                m = CL.parse_reply(rep, 1)[0]
+            except Exception:  # noqa
+                ctx.count("compu_model_reply_unparseable")
+                continue
+            s = results[(True, True)][i]
+            ctx.traces += 1
+            ctx.histo("compu: model(strict)/impl(strict)", f"{m[0]}{':' + CL.canon_err(str(m[1])) if m[0] == 'err' else ''}/" +
+                      ("ok" if is_ok(s) else "odxerror" if is_odx_error(s) else "foreign"))
+            if m[0] == "err" and CL.canon_err(str(m[1])) in ("encode", "decode", "odx") and not is_ok(s) and not is_odx_error(s):
+                report("problem-reported-as-an-error-in-strict-mode", cases[i], "foreign-exception-instead-of-the-library-error",
+                       {"model_strict": rep[:200], "strict": s[:400], "lenient": results[(True, False)][i][:400]},
+                       f"compu {cases[i]['dir']}: the model reports the problem as {m[1]} in strict mode; the implementation raises {s[:120]} "
+                       f"(strict) / {results[(True, False)][i][:80]} (non-strict): not an OdxError, nothing for non-strict mode to downgrade")
+    else:
+        ctx.notes.append("drv_compu not available: compu-method calls not compared with the C07 model")
 
 
 def replay(ctx, data):
